@@ -379,6 +379,7 @@ type xBuilt struct {
 }
 
 type xHooks struct {
+	IsTypeOf    func(p graphql.IsTypeOfParams, object string) bool
 	Resolve     func(p graphql.ResolveParams) (interface{}, error)
 	ResolveType func(p graphql.ResolveTypeParams, abstract string) *graphql.Object
 }
@@ -455,7 +456,11 @@ func (s *xSchema) build(h *xHooks) (*xBuilt, error) {
 	for _, t := range s.Types {
 		t := t
 		if t.Kind == "object" {
-			b.Types[t.Name] = graphql.NewObject(graphql.ObjectConfig{Name: t.Name,
+			var isTypeOf graphql.IsTypeOfFn
+			if h.IsTypeOf != nil && t.Name != "Q" && t.Name != "M" {
+				isTypeOf = func(p graphql.IsTypeOfParams) bool { return h.IsTypeOf(p, t.Name) }
+			}
+			b.Types[t.Name] = graphql.NewObject(graphql.ObjectConfig{Name: t.Name, IsTypeOf: isTypeOf,
 				Fields: graphql.FieldsThunk(func() graphql.Fields { return fieldsOf(t) }),
 				Interfaces: graphql.InterfacesThunk(func() []*graphql.Interface {
 					var is []*graphql.Interface
